@@ -91,9 +91,53 @@ def apply (d : DSt) (t : Nat) (op : Op) : DSt × String :=
   let d' := { d with s := r.1, now := t }
   (d', showRes r.2 ++ " " ++ showState d')
 
+/-- one message of a `tx` line: the fields of the single-message op line without the time, joined by `/`
+(`create/sg/cr/cl/amt/dn/months`, `activate/sg/cr`, `auth/sg/cr`, `legacy/sg/cr`, `send/from/to/dn/amt`,
+`grant/granter/grantee`).  Leading `x/` fields say that the harness wrapped the message that many times in an
+`authz.MsgExec` whose grantee is the message's declared signer: checked and executed like the bare message
+(see Model/LightNode.lean), so the model drops the marker. -/
+def parseMsg? (t : Nat) (tok : String) : Option Op :=
+  match (tok.splitOn "/").dropWhile (· == "x") with
+  | ["create", sg, cr, cl, amt, dn, m] =>
+    match parseNat? sg, parseNat? cr, parseOptAddrStr? cl, parseInt? amt, parseNat? dn, parseNat? m with
+    | some sg, some cr, some cl, some amt, some dn, some m => some (.create sg cr cl amt dn m t)
+    | _, _, _, _, _, _ => none
+  | ["activate", sg, cr] =>
+    match parseNat? sg, parseAddrStr? cr with
+    | some sg, some cr => some (.activate sg cr t)
+    | _, _ => none
+  | ["auth", sg, cr] =>
+    match parseNat? sg, parseAddrStr? cr with
+    | some sg, some cr => some (.auth sg cr)
+    | _, _ => none
+  | ["legacy", sg, cr] =>
+    match parseNat? sg, parseNat? cr with
+    | some sg, some cr => some (.legacy sg cr)
+    | _, _ => none
+  | ["send", a, b, dn, amt] =>
+    match parseNat? a, parseOptAddr? b, parseNat? dn, parseInt? amt with
+    | some a, some b, some dn, some amt => some (.send a b dn amt t)
+    | _, _, _, _ => none
+  | ["grant", g, e] =>
+    match parseNat? g, parseNat? e with
+    | some g, some e => some (.grant g e)
+    | _, _ => none
+  | _ => none
+
 def step (d : DSt) (args : List String) : DSt × String :=
   match args with
   | ["reset"] => ({}, "ok")
+  | "tx" :: t :: ms =>
+    -- ONE transaction carrying the messages `ms` (possibly none), delivered at block time `t`
+    match parseNat? t with
+    | some t =>
+      match ms.mapM (parseMsg? t) with
+      | some msgs =>
+        let r := tx d.s msgs
+        let d' := { d with s := r.1, now := t }
+        (d', showRes r.2 ++ " " ++ showState d')
+      | none => (d, "bad-op")
+    | none => (d, "bad-op")
   | ["fund", a, dn, amt] =>
     match parseNat? a, parseNat? dn, parseNat? amt with
     | some a, some dn, some amt => apply d d.now (.fund a dn amt)
